@@ -56,6 +56,56 @@ type rsBehaviour struct {
 	Pred      []rsCall `json:"pred,omitempty"` // the model's prediction (replay mode)
 	Timed     bool     `json:"timed,omitempty"`
 	Src       string   `json:"src,omitempty"`
+	// Variants: the same operations replayed with other bases / scales / record types of
+	// the same class (expanded by the runner; trace ids are Trace*16+index)
+	Variants []rsVariant `json:"variants,omitempty"`
+}
+
+type rsVariant struct {
+	Base    U32 `json:"base"`
+	Scale   int `json:"scale,omitempty"`
+	InfKind int `json:"inf_kind,omitempty"`
+	Retype  int `json:"retype,omitempty"` // seed for class-preserving record type substitution (0 = keep)
+	Raw     int `json:"raw,omitempty"`    // every n-th push goes through Push(type, raw) instead of PushMessage
+}
+
+func expandVariants(b *rsBehaviour) []*rsBehaviour {
+	if len(b.Variants) == 0 {
+		return []*rsBehaviour{b}
+	}
+	var out []*rsBehaviour
+	for i, v := range b.Variants {
+		c := *b
+		c.Variants = nil
+		c.Trace = b.Trace*16 + i
+		c.Base, c.Scale, c.InfKind = v.Base, v.Scale, v.InfKind
+		if v.Scale > 1 {
+			c.Src = "tlc-scaled"
+		}
+		if v.Retype != 0 || v.Raw != 0 {
+			r := newRand(int64(v.Retype), int64(c.Trace))
+			c.Ops = append([]rsOp(nil), b.Ops...)
+			for j := range c.Ops {
+				if c.Ops[j].Op != "push" {
+					continue
+				}
+				if v.Retype != 0 {
+					switch {
+					case c.Ops[j].Type == 1320:
+					case c.Ops[j].Type == 1327 || c.Ops[j].Type <= 1299 || c.Ops[j].Type >= 2100:
+						c.Ops[j].Type = pick(r, rsCompletingTypes)
+					default:
+						c.Ops[j].Type = pick(r, rsPlainTypes)
+					}
+				}
+				if v.Raw > 0 && r.Intn(v.Raw) == 0 {
+					c.Ops[j].Op = "pushraw"
+				}
+			}
+		}
+		out = append(out, &c)
+	}
+	return out
 }
 
 type rsReset struct {
@@ -337,7 +387,7 @@ func rsRun(args []string) int {
 		if err := json.Unmarshal(line, b); err != nil {
 			fatal("bad behaviour: %v", err)
 		}
-		behs = append(behs, b)
+		behs = append(behs, expandVariants(b)...)
 	})
 
 	type result struct {
